@@ -5,6 +5,7 @@ import (
 
 	"fmt"
 	"go/ast"
+	"sort"
 	"strings"
 
 	"mpcverif/internal/dispatch"
@@ -12,10 +13,41 @@ import (
 	"mpcverif/internal/report"
 )
 
+// gateArity reads the number of inputs per operation from circuit.Gate.Inputs.
+func gateArity(p *load.Program) map[string]int {
+	out := map[string]int{}
+	_, fd := dispatch.FindFunc(p, "circuit", "Gate", "Inputs")
+	if fd == nil {
+		return out
+	}
+	ast.Inspect(fd.Body, func(n ast.Node) bool {
+		cc, ok := n.(*ast.CaseClause)
+		if !ok || cc.List == nil {
+			return true
+		}
+		k := -1
+		for _, st := range cc.Body {
+			if r, ok := st.(*ast.ReturnStmt); ok && len(r.Results) == 1 {
+				if cl, ok := r.Results[0].(*ast.CompositeLit); ok {
+					k = len(cl.Elts)
+				}
+			}
+		}
+		if k < 0 {
+			return true
+		}
+		for _, e := range cc.List {
+			out[cx(e)] = k
+		}
+		return true
+	})
+	return out
+}
+
 // C10levels: the level schedule of the GMW evaluation is consistent with how levels are assigned.
 func C10levels(p *load.Program, run *report.Run) {
 	canonFor(p)
-	run.Rule("gmw-level-schedule", "under the GMW target the output of an AND gate gets a level above the gate's own (so no AND of a batch consumes another AND of the same batch), and run evaluates, per level, the non-AND gates before it flushes the AND batch of that level (an AND may consume a XOR of its own level, never the other way round)")
+	run.Rule("gmw-level-schedule", "a gate's level is the maximum of the levels of all inputs that Gate.Inputs lists for its operation (the gate loop of AssignLevels interpreted per operation); under the GMW target the output of an AND gate gets a level above the gate's own (so no AND of a batch consumes another AND of the same batch), and run evaluates, per level, the non-AND gates before it flushes the AND batch of that level (an AND may consume a XOR of its own level, never the other way round)")
 	pkgC := p.ByPath[load.Module+"/circuit"]
 	_, fa := dispatch.FindFunc(p, "circuit", "Circuit", "AssignLevels")
 	pkgG, fr := dispatch.FindFunc(p, "gmw", "Network", "run")
@@ -54,6 +86,67 @@ func C10levels(p *load.Program, run *report.Run) {
 				run.Violate("gmw-level-schedule", key, p.Rel(clause.Pos()), "the output of an AND gate stays on the gate's level: two dependent ANDs land in one batch", nil)
 			default:
 				run.OK("gmw-level-schedule", key, p.Rel(clause.Pos()), fmt.Sprintf("output level +%d", lv.(int64)))
+			}
+		}
+	}
+	// (a0) the level of a gate is the maximum over all of its inputs: the statements of the gate
+	// loop before the level is stored, interpreted per operation with the input levels (0,1), (1,0), (1,1)
+	arity := gateArity(p)
+	var loop *ast.RangeStmt
+	ast.Inspect(fa.Body, func(n ast.Node) bool {
+		if r, ok := n.(*ast.RangeStmt); ok && loop == nil && strings.HasSuffix(cx(r.X), ".Gates") {
+			loop = r
+		}
+		return true
+	})
+	if loop == nil || len(arity) == 0 {
+		run.Undecided("gmw-level-schedule", "circuit.Circuit.AssignLevels/input-levels", p.Rel(fa.Pos()), "gate loop or Gate.Inputs not found")
+	} else {
+		var prefix []ast.Stmt
+		for _, st := range loop.Body.List {
+			if as, ok := st.(*ast.AssignStmt); ok && len(as.Lhs) == 1 && strings.HasSuffix(cx(as.Lhs[0]), ".Level") {
+				break
+			}
+			prefix = append(prefix, st)
+		}
+		gv := "gate"
+		if id, ok := loop.Value.(*ast.Ident); ok {
+			gv = id.Name
+		}
+		var ops []string
+		for op := range arity {
+			ops = append(ops, op)
+		}
+		sort.Strings(ops)
+		for _, op := range ops {
+			run.Count("level-cells", 1)
+			key := "circuit.Circuit.AssignLevels/input-levels/" + op
+			bad := ""
+			for _, lv := range [][2]int64{{0, 1}, {1, 0}, {1, 1}} {
+				w := &wInterp{pkg: pkgC}
+				w.push()
+				w.set(gv+".Op", op, true)
+				w.set(gv+".Input0", int64(0), true)
+				w.set(gv+".Input1", int64(1), true)
+				w.set("levels", []wv{lv[0], lv[1]}, true)
+				w.stmts(prefix)
+				got, _ := w.lookup("level")
+				want := lv[0]
+				if arity[op] == 2 && lv[1] > want {
+					want = lv[1]
+				}
+				if w.fail != "" {
+					bad = "not interpreted: " + w.fail
+				} else if g, ok := got.(int64); !ok || g != want {
+					bad = fmt.Sprintf("with input levels %d and %d the gate gets level %v, the maximum over its %d input(s) is %d: the gate is scheduled before the wire it reads is computed", lv[0], lv[1], got, arity[op], want)
+				}
+			}
+			if strings.HasPrefix(bad, "not interpreted") {
+				run.Undecided("gmw-level-schedule", key, p.Rel(loop.Pos()), bad)
+			} else if bad != "" {
+				run.Violate("gmw-level-schedule", key, p.Rel(loop.Pos()), bad, nil)
+			} else {
+				run.OK("gmw-level-schedule", key, p.Rel(loop.Pos()), fmt.Sprintf("maximum over %d input(s)", arity[op]))
 			}
 		}
 	}
